@@ -81,6 +81,7 @@ func (x *Exec) VerifyFunc(key string, fc *FuncContract) (err error) {
 	st := &State{vars: map[types.Object]Value{}, boxed: map[types.Object]PtrV{}, heap: map[string]*Term{}, ghost: map[string]Value{}}
 	st.now = Var("now0", SInt)
 	st.assumeRaw(Gt(st.now, IntLit(1_000_000_000)))
+	st.ghost["jsize"] = IntV{Var("jsize0", SInt)}
 	st.alloc = Var("alloc0", ArrOf(SBool))
 
 	var body *ast.BlockStmt
@@ -155,6 +156,35 @@ func (x *Exec) VerifyFunc(key string, fc *FuncContract) (err error) {
 				st.vars[obj] = x.zeroValue(x.resolveType(obj.Type()))
 				ri++
 			}
+		}
+	}
+	for _, g := range fc.Ghost {
+		if g == "holds shard" {
+			st.held = append(st.held, heldLock{ID: Var("callerlock", SInt), Level: 1, Write: true, Desc: "elem:held-by-caller"})
+		}
+	}
+	if fc.Implements != "" {
+		if ff := x.C.Funcs["fnfield:"+fc.Implements]; ff != nil {
+			// the closure's parameters are also known under the names the field contract uses
+			i := 0
+			for _, f := range ftype.Params.List {
+				for _, n := range f.Names {
+					if i < len(ff.Params) {
+						ctx.Params[ff.Params[i].Name] = ctx.Params[n.Name]
+					}
+					i++
+				}
+			}
+			for _, g := range ff.Ghost {
+				if g == "holds shard" {
+					st.held = append(st.held, heldLock{ID: Var("callerlock", SInt), Level: 1, Write: true, Desc: "elem:held-by-caller"})
+				}
+			}
+			fc.Requires = append(append([]Clause{}, ff.Requires...), fc.Requires...)
+			fc.Ensures = append(append([]Clause{}, ff.Ensures...), fc.Ensures...)
+			fc.Implements = ""
+		} else {
+			return fmt.Errorf("%s: implements unknown fnfield %s", key, fc.Implements)
 		}
 	}
 	x.onFuncEntry(fr, st, ctx)
@@ -275,6 +305,9 @@ func (x *Exec) pureFrame(fr *Frame, st *State, ctx *FuncCtx) {
 		x.oblige(fr, st, "frame", "pure/havoc", TFalse, nil)
 		return
 	}
+	if st.loopHavoc {
+		return
+	}
 	for _, key := range st.heapKeys() {
 		cur := st.heap[key]
 		if cur.Op == "var" {
@@ -307,6 +340,10 @@ func (x *Exec) assignsFrame(fr *Frame, st *State, ctx *FuncCtx) {
 	}
 	if st.havocked && len(st.lazyHavoc) == 0 {
 		x.oblige(fr, st, "frame", "assigns/havoc", TFalse, nil)
+		return
+	}
+	if st.loopHavoc {
+		// frame of loops is checked per iteration (syntactic scan of the body): see loopFrame
 		return
 	}
 	for _, key := range st.heapKeys() {
